@@ -244,10 +244,15 @@ def sib2(ctx, f, spec):
                 wt[v] = lc.width_of(wk[1])[0]
     slices = [c for c in mir.calls(r) if c.is_("next_slice") and lc.DE_COMMON in c.callee]
     payload = []
+    term_reads = []   # constant-length reads outside the prefix arms: the terminator, when it is read rather than skipped
     for c in slices:
         arm = lc.arm_of(r, f, c.b)
         if arm is None or arm == frozenset(["otherwise"]):
-            payload.append(c)
+            kk = mir.resolve_const(r, c.args[1])
+            if kk is not None and isinstance(kk.get("v"), int):
+                term_reads.append((c, kk["v"]))
+            else:
+                payload.append(c)
             continue
         n = lc.canon_align(f, spec, lc.align_source(f, r, c.args[1]))
         for v in arm:
@@ -273,11 +278,11 @@ def sib2(ctx, f, spec):
     ctx.ob("SIB-2", K(r, "one-payload-slice"), ok, "%d payload next_slice call(s) after the prefix arms" % len(payload), r.where)
     if ok:
         p = payload[0]
-        pre = {c.b for c in slices if c is not p}
+        pre = {c.b for c in slices if c is not p and all(c is not t[0] for t in term_reads)}
         ctx.ob("SIB-2", K(r, "prefix-before-payload"), lc.always_preceded(r, p.b, pre), "the payload is taken after a prefix was read", p.where)
         ll = mir.root_local(r, p.args[1])
         defs = mir.defs_of(r, ll)
-        lens = mir.derives(r, {c.dest[0] for c in slices if c is not p})
+        lens = mir.derives(r, {c.dest[0] for c in slices if c is not p and all(c is not t[0] for t in term_reads)})
         ctx.ob("SIB-2", K(r, "payload-length-is-prefix"), bool(defs) and ll in lens,
                "payload length derives from the prefix bytes", p.where)
         incs = []
@@ -289,10 +294,13 @@ def sib2(ctx, f, spec):
                 incs.append((s[0], k.get("v") if k else None))
         term_w = [c for c in mir.calls(w) if lc.write_kind(c) == ("io", "write_all") and lc.const_bytes(w, c.args[1]) is not None]
         nterm = sum(len(lc.const_bytes(w, c.args[1])) for c in term_w)
-        ok = len(incs) == 1 and incs[0][1] == nterm and lc.always_followed(r, p.b, {incs[0][0]}) and lc.always_preceded(r, incs[0][0], {p.b})
+        # the terminator is consumed either by `pos += k` or by reading k bytes (next_slice(k)) after the payload
+        consumed = [(b, k) for b, k in incs] + [(c.b, k) for c, k in term_reads]
+        ok = len(consumed) == 1 and consumed[0][1] == nterm and lc.always_followed(r, p.b, {consumed[0][0]}) and \
+            lc.always_preceded(r, consumed[0][0], {p.b})
         ctx.ob("SIB-2", K(r, "terminator-skip"), ok,
-               "reader skips %s byte(s) after the payload on every success path; writer emits %d terminator byte(s)" % (
-                   [i[1] for i in incs], nterm), r.where)
+               "reader consumes %s byte(s) after the payload on every success path; writer emits %d terminator byte(s)" % (
+                   [i[1] for i in consumed], nterm), r.where)
 
 
 # ============================================================================================ SIB-3 padding points
@@ -489,7 +497,13 @@ def load_kind(body, op, depth=0):
         return None
     fs = lc.deref_fields(pl)
     if fs:
+        lastp = [p for p in pl[1] if isinstance(p, list) and p[0] == "."][-1]
+        owner, fty = lastp[3], lastp[4]
         if fs[-1] in RESTORE_FIELDS:
+            return ("restore-field", None)
+        if owner not in (lc.SER_COMMON, lc.DE_COMMON) and "signature::Signature" in fty and fty.lstrip().startswith("&") \
+                and owner.startswith("zvariant::") and not owner.startswith("upvar:"):
+            # a signature reference kept in an access/sub-serializer object (e.g. StructSerializer.signature)
             return ("restore-field", None)
         if fs[-1] == "signature":
             return ("self-signature" if root_is_self(body, pl[0]) else "other-signature", None)
@@ -546,6 +560,54 @@ def shared_cursor_sites(f, filename):
     return out
 
 
+def saved_by_constructor(f, b, s):
+    """The store `s` in `b` is preceded (dominated) by a call to a constructor of the same impl ADT whose body builds
+    that ADT with a field holding the cursor's previous value, and some method of the ADT restores the cursor from it."""
+    adt = b.d.get("impl_adt")
+    if not adt:
+        return False
+    for c in mir.calls(b):
+        callee = f.bodies.get(c.callee)
+        if callee is None or callee.d.get("impl_adt") != adt or not mir.dominates(b, c.point, (s[0], s[1])):
+            continue
+        for bi, i, pl, rv, ln in mir.assignments(callee):
+            if rv[0] == "agg" and rv[1] == "adt" and rv[2] == adt:
+                for fname, op in zip(rv[5] or [], rv[4]):
+                    k2 = load_kind(callee, op)
+                    if k2 is not None and k2[0] == "self-signature":
+                        # a closer of the ADT restores from that field
+                        for m in f.find(adt=adt):
+                            for st in lc.field_writes(m, "signature"):
+                                if st[2][1][-1][3] in (lc.SER_COMMON, lc.DE_COMMON) and st[3][0] == "use" and \
+                                        lc.reads_field(m, st[3][1], fname) and classify_sig_store(m, st) == "restore":
+                                    return True
+    return False
+
+
+def identifier_restored_by_enum(f, b):
+    """deserialize_identifier leaves the payload signature in the cursor for the variant's content; zvariant decodes
+    identifiers only as enum variant tags (struct fields are positional), i.e. inside `visit_enum` called by
+    deserialize_enum of the same deserializer: accepted iff that function saves the cursor before visit_enum and
+    restores it on every path after it."""
+    adt = b.d.get("impl_adt")
+    for m in f.find(name="deserialize_enum", adt=adt):
+        if m.d.get("impl_trait") != b.d.get("impl_trait") or m.file != b.file:
+            continue
+        ve = [c for c in mir.calls(m) if c.is_("visit_enum")]
+        if not ve:
+            continue
+        stores = [st for st in lc.field_writes(m, "signature") if st[2][1][-1][3] in (lc.SER_COMMON, lc.DE_COMMON)]
+        for st in stores:
+            if classify_sig_store(m, st) != "restore":
+                continue
+            k = load_kind(m, st[3][1])
+            if k is None or k[1] is None:
+                continue
+            if all(mir.dominates(m, k[1], c.point) and lc.always_followed(m, c.b, {st[0]}) for c in ve):
+                return True
+    return False
+
+
 def sib4(ctx, f, tag, crate_files, skip=()):
     n = 0
     judged = set()
@@ -597,9 +659,15 @@ def sib4(ctx, f, tag, crate_files, skip=()):
                         if k2 is not None and k2[0] == "self-signature" and k2[1] is not None and \
                                 mir.dominates(b, k2[1], (s[0], s[1])) and k2[1] != (s[0], s[1]):
                             saved = True
+                if not saved:
+                    saved_via = saved_by_constructor(f, b, s)
+                    if saved_via:
+                        saved = True
+                if not saved and b.name == "deserialize_identifier":
+                    saved = identifier_restored_by_enum(f, b)
                 if saved:
                     ok = True
-                    why = "opener: previous signature saved (before the store) into the returned object's array_signature"
+                    why = "opener: previous signature saved (before the store) into an object whose closer restores it"
                     openers.setdefault(b.d.get("impl_adt"), []).append(b)
                 elif not shared.get(b.file):
                     ok = True
